@@ -6,9 +6,9 @@ from props.c01 import SAFE, FULL, UNDECL
 
 MANIFEST = dict(
     text="Lean theorems about the mirror of deduplicate_select_items (the step deciding which select items of a block survive): "
-         "dedup_sublist (nothing invented or reordered), no_merge_partial (no item is dropped when every item mentions an identifier "
-         "not mentioned before), and no_merge_counterexample (the full statement 'distinct select items all survive' is false for "
-         "the code as it is: t0.a, t0.k, t1.u, t1.k loses t1.k). Ties: the mirror is compared with the real function through the "
+         "dedup_sublist (nothing invented or reordered), no_merge (select items with pairwise different identifiers all survive - "
+         "true since the repair d06ca49 `fix: deduplicate_select_items compares whole identifiers`; before it t0.a, t0.k, t1.u, t1.k "
+         "lost t1.k, which the first version of this check found as a counterexample), dedup_removes_repetition. Ties: the mirror is compared with the real function through the "
          "verif hook on all short item lists and random ones; the property itself is checked on the implementation: the column "
          "names/count/order SQLite reports for the emitted SQL vs the final frame of the compiler's own RQ (relation.columns) and "
          "the generator's frame, for programs with explicit columns, wildcards, repeated names, joins of tables sharing names, "
@@ -40,7 +40,7 @@ def rq_columns(rq):
 
 def run(ctx):
     br = vlib.standard_proof_obligations(ctx, ["PrqlModel.Props.C05"], [],
-        required_theorems=["dedup_sublist", "no_merge_partial", "no_merge_counterexample", "anyInsert_true_of_fresh", "kept_length"])
+        required_theorems=["dedup_sublist", "no_merge", "no_merge_from", "dedup_removes_repetition", "kept_length"])
     ctx.rule = ("(i) deduplicate_select_items: every list of <= 4 items over a 4-identifier alphabet (compound 1-2 parts / alias / other) "
                 "exhaustively + random longer lists, real function (hook) vs Lean mirror; (ii) generated programs x databases: names, "
                 "count and order of the SQLite result columns vs the RQ's final frame; non-trivial = compiled, executed, >= 2 columns")
